@@ -1042,6 +1042,11 @@ def _from_bytes(it, S, t, callee, args):
         expr = term if expr is None else ("bin", "BitOr", ty, expr, term)
     asm = assemble_bytes(expr) if expr is not None else None
     if asm is None:
+        # not the bytes 0..n-1 of one sequence (e.g. from_le_bytes([b[1], b[2]])): the integer is still this expression over them
+        if expr is not None and all(isinstance(e, tuple) for e in elems):
+            set_ty(expr, ty)
+            S.set_dom(expr, Dom(0, 2 ** (8 * n) - 1))
+            return expr
         return None
     # the array lists the bytes most significant first after the reversal above, whatever the call's byte order
     R = ("model", "uint-from-bytes", asm[0] if order == "be" else {"be": "le", "le": "be"}[asm[0]], asm[1], ("ref", asm[2]), it.site())
